@@ -156,13 +156,14 @@ fn payload_str(p: &Payload) -> String {
     }
 }
 
-/// a fatal signal (SIGSEGV/SIGBUS/SIGILL/SIGABRT) inside a scenario is an observation (a memory
+/// a fatal signal (SIGSEGV/SIGBUS/SIGILL) inside a scenario is an observation (a memory
 /// fault behind a safe API), not a reason to lose the report: the faulting thread is parked inside
 /// the handler for good, the driver records the violation and stops that sub.
 static CRASHED: AtomicUsize = AtomicUsize::new(0);
 extern "C" {
     fn signal(sig: i32, handler: usize) -> usize;
     fn pause() -> i32;
+    fn _exit(code: i32) -> !;
 }
 extern "C" fn on_crash(sig: i32) {
     CRASHED.store(sig as usize, SeqCst);
@@ -173,7 +174,9 @@ extern "C" fn on_crash(sig: i32) {
     }
 }
 fn install_crash_handlers() {
-    for sig in [11, 7, 4, 6] {
+    // not SIGABRT: glibc aborts on heap corruption while holding the allocator lock; parking that
+    // thread would hang every other thread. The supervising parent reports the abort instead.
+    for sig in [11, 7, 4] {
         unsafe {
             signal(sig, on_crash as *const () as usize);
         }
@@ -912,6 +915,7 @@ fn sub_scope(o: &Opts) -> SubRep {
     for (seed, idx, origin) in plan.items {
         let sc = Arc::new(gen_scope(seed, idx));
         let input = scope_input(&sc);
+        write_progress(o, "scope", &input);
         let sc2 = sc.clone();
         let seq = Arc::new(AtomicU64::new(0));
         let seq2 = seq.clone();
@@ -1005,6 +1009,7 @@ fn sub_scope(o: &Opts) -> SubRep {
         }
     }
     w.flush();
+    write_progress(o, &rep.name.clone(), &json!({"sub": rep.name, "done": true}));
     rep.cases = w.total;
     rep.shards = w.shards;
     rep.wall_ms = t0.elapsed().as_millis();
@@ -1178,6 +1183,7 @@ fn sub_rolock(o: &Opts) -> SubRep {
     for (seed, idx, origin) in plan.items {
         let sc = Arc::new(gen_rolock(seed, idx));
         let input = json!({"sub": "rolock", "seed": seed, "index": idx, "threads": sc.n, "variant": if sc.vecvar {"vec"} else {"pair"}, "write_pct": sc.write_pct});
+        write_progress(o, "rolock", &input);
         let sc2 = sc.clone();
         let seq = Arc::new(AtomicU64::new(0));
         let seq2 = seq.clone();
@@ -1301,6 +1307,7 @@ fn sub_rolock(o: &Opts) -> SubRep {
         w.push(term);
     }
     w.flush();
+    write_progress(o, &rep.name.clone(), &json!({"sub": rep.name, "done": true}));
     rep.cases = w.total;
     rep.shards = w.shards;
     rep.wall_ms = t0.elapsed().as_millis();
@@ -1629,7 +1636,7 @@ fn sub_vec(o: &Opts) -> SubRep {
     let mut rep = SubRep::new("vec");
     rep.rule = "(a) ParallelVecWriter over a seeded initial vector of exact capacity: 2..8 threads x 1..6 write_contents/write_slice calls of 0..12 unique items, concurrent read_access/with_index/with_slice readers and unsafe read-back of own writes; (b) ConcurrentVec::with_capacity(1|2): 2..6 pushing threads + prefix readers; (c) NotificationList: concurrent notify of dense ids, reset at quiescence (predicate only). case = (init, [(returned start, items)] sorted by start, final vector); non-trivial iff >= 2 writer threads and the total length exceeds the initial capacity (a reallocation under the lock happened); distinct by the generated scenario".into();
     let header = "From Coq Require Import List NArith.\nImport ListNotations.\nRequire Import Verif.Base.Cases Verif.Conc.WritersModel.\n";
-    let mut w = CaseWriter::new(&o.out, "cases_vec", header, "check_case", 100);
+    let mut w = CaseWriter::new(&o.out, "cases_vec", header, "check_case", 50);
     let plan = make_plan(o, "vec", if o.thorough { 3000 } else { 150 });
     let mut distinct: HashSet<String> = HashSet::new();
     for (seed, idx, origin) in plan.items {
@@ -1640,6 +1647,7 @@ fn sub_vec(o: &Opts) -> SubRep {
             VecScen::Nl { .. } => "notification_list",
         };
         let input = json!({"sub": "vec", "seed": seed, "index": idx, "kind": kind});
+        write_progress(o, "vec", &input);
         let sc2 = sc.clone();
         let seq = Arc::new(AtomicU64::new(0));
         let seq2 = seq.clone();
@@ -1681,6 +1689,7 @@ fn sub_vec(o: &Opts) -> SubRep {
         }
     }
     w.flush();
+    write_progress(o, &rep.name.clone(), &json!({"sub": rep.name, "done": true}));
     rep.cases = w.total;
     rep.shards = w.shards;
     rep.wall_ms = t0.elapsed().as_millis();
@@ -1954,6 +1963,7 @@ fn sub_uf(o: &Opts) -> SubRep {
     for (seed, idx, origin) in plan.items {
         let sc = Arc::new(gen_uf(seed, idx));
         let input = json!({"sub": "uf", "seed": seed, "index": idx, "kind": sc.kind, "threads": sc.ops.len(), "ids": sc.n_ids, "capacity": sc.cap, "on_pool": sc.use_pool});
+        write_progress(o, "uf", &input);
         let sc2 = sc.clone();
         let seq = Arc::new(AtomicU64::new(0));
         let seq2 = seq.clone();
@@ -2135,6 +2145,7 @@ fn sub_uf(o: &Opts) -> SubRep {
         w.push(term);
     }
     w.flush();
+    write_progress(o, &rep.name.clone(), &json!({"sub": rep.name, "done": true}));
     rep.cases = w.total;
     rep.shards = w.shards;
     rep.wall_ms = t0.elapsed().as_millis();
@@ -2142,6 +2153,123 @@ fn sub_uf(o: &Opts) -> SubRep {
 }
 
 // ------------------------------------------------------------------------------------------------
+
+static SINGLE_SUB: AtomicBool = AtomicBool::new(false);
+fn progress_path(out: &std::path::Path, sub: &str, single: bool) -> std::path::PathBuf {
+    if single {
+        out.join("progress.json")
+    } else {
+        out.join(format!("progress_{sub}.json"))
+    }
+}
+/// overwritten before every scenario so that the supervising parent knows what was running when
+/// the child died
+fn write_progress(o: &Opts, sub: &str, input: &Value) {
+    let _ = std::fs::write(progress_path(&o.out, sub, SINGLE_SUB.load(SeqCst)), input.to_string());
+}
+
+/// parent process: run the real harness as a child (`--child`), and if that child is killed by a
+/// signal, exits non-zero, stops starting scenarios or does not exit in time, write the report
+/// ourselves: one `<sub>-crash` violation naming the scenario from the child's progress file.
+fn supervise(o: &Opts, subs: &[&'static str], only: Option<&str>) -> ! {
+    use std::os::unix::process::ExitStatusExt;
+    let single = subs.len() == 1;
+    for s in subs {
+        let _ = std::fs::remove_file(progress_path(&o.out, s, single));
+    }
+    let _ = std::fs::remove_file(o.out.join("impl_report.json"));
+    let deadline = if o.thorough {
+        1500
+    } else if single {
+        150
+    } else {
+        400
+    };
+    let stall = if o.thorough { 240 } else { 75 };
+    let t0 = Instant::now();
+    let args: Vec<String> = std::env::args().skip(1).collect();
+    let exe = std::env::current_exe().expect("current_exe");
+    let mut child = match std::process::Command::new(exe).args(&args).arg("--child").spawn() {
+        Ok(c) => c,
+        Err(e) => {
+            eprintln!("cannot re-execute the harness: {e}");
+            std::process::exit(3);
+        }
+    };
+    let reason: String = loop {
+        match child.try_wait() {
+            Ok(Some(st)) => {
+                if st.success() && o.out.join("impl_report.json").exists() {
+                    std::process::exit(0);
+                }
+                break match (st.signal(), st.code()) {
+                    (Some(sig), _) => format!("was killed by signal {sig}"),
+                    (_, Some(c)) => format!("exited with code {c}"),
+                    _ => "ended abnormally".into(),
+                };
+            }
+            Ok(None) => {}
+            Err(e) => break format!("could not be waited for ({e})"),
+        }
+        let el = t0.elapsed().as_secs();
+        // most recent sign of life: a scenario was started (its progress file was rewritten)
+        let newest = subs
+            .iter()
+            .filter_map(|s| std::fs::metadata(progress_path(&o.out, s, single)).ok()?.modified().ok()?.elapsed().ok())
+            .min()
+            .map(|d| d.as_secs())
+            .unwrap_or(el);
+        if el >= deadline {
+            let _ = child.kill();
+            let _ = child.wait();
+            break format!("did not exit within {deadline}s");
+        }
+        if newest >= stall && el >= stall {
+            let _ = child.kill();
+            let _ = child.wait();
+            break format!("started no scenario for {stall}s (hung)");
+        }
+        std::thread::sleep(Duration::from_millis(100));
+    };
+    // the child is gone without a usable report: none of its shards may be evaluated
+    if let Ok(rd) = std::fs::read_dir(&o.out) {
+        for e in rd.flatten() {
+            let n = e.file_name().to_string_lossy().to_string();
+            if n.starts_with("cases_") && n.ends_with(".v") {
+                let _ = std::fs::remove_file(e.path());
+            }
+        }
+    }
+    let mut viols = Vec::new();
+    for s in subs {
+        let inp = std::fs::read_to_string(progress_path(&o.out, s, single)).ok().and_then(|t| serde_json::from_str::<Value>(&t).ok());
+        match inp {
+            Some(v) if v.get("done").is_some() => {}
+            Some(v) => viols.push(json!({
+                "what": format!("harness child {reason} while running scenario {v}: memory corruption or hang in the implementation under test"),
+                "key": format!("{s}-crash"),
+                "input": v})),
+            None => {}
+        }
+    }
+    if viols.is_empty() {
+        let s = subs[0];
+        viols.push(json!({
+            "what": format!("harness child {reason} outside of any scenario"),
+            "key": format!("{s}-crash"),
+            "input": {"sub": s, "seed": o.seed}}));
+    }
+    let report = json!({
+        "sub": match only { Some(x) => format!("conc-{x}"), None => "conc".to_string() },
+        "cases": 0, "shards": 0, "distinct_nontrivial": 0,
+        "rule": "written by the supervising parent process: the harness child did not produce a report (see violations)",
+        "samples": [], "violations": viols, "child": reason, "seed": o.seed,
+        "tier": if o.thorough { "thorough" } else { "quick" },
+        "total_wall_ms": t0.elapsed().as_millis() as u64,
+    });
+    std::fs::write(o.out.join("impl_report.json"), report.to_string() + "\n").unwrap();
+    std::process::exit(0);
+}
 
 fn rep_json(r: &SubRep) -> Value {
     let mut m = serde_json::Map::new();
@@ -2169,8 +2297,6 @@ fn rep_json(r: &SubRep) -> Value {
 
 fn main() {
     let o = verif_harness::parse_opts();
-    std::panic::set_hook(Box::new(|_| {}));
-    install_crash_handlers();
     let t0 = Instant::now();
     let mut only: Option<String> = None;
     let mut i = 0;
@@ -2181,14 +2307,20 @@ fn main() {
         }
         i += 1;
     }
-    let subs: Vec<&str> = match only.as_deref() {
-        Some(x) if ["scope", "rolock", "vec", "uf"].contains(&x) => vec![x],
+    let subs: Vec<&'static str> = match only.as_deref() {
+        Some(x) if ["scope", "rolock", "vec", "uf"].contains(&x) => vec![*["scope", "rolock", "vec", "uf"].iter().find(|y| **y == x).unwrap()],
         Some(x) => {
             eprintln!("unknown --only {x}");
             std::process::exit(2);
         }
         None => vec!["scope", "rolock", "vec", "uf"],
     };
+    if !o.extra.iter().any(|a| a == "--child") {
+        supervise(&o, &subs, only.as_deref());
+    }
+    SINGLE_SUB.store(subs.len() == 1, SeqCst);
+    std::panic::set_hook(Box::new(|_| {}));
+    install_crash_handlers();
     let o = Arc::new(o);
     // the subs run concurrently (every scenario keeps its own event log); the extra load only adds
     // preemption noise
@@ -2253,6 +2385,7 @@ fn main() {
         m.insert("total_wall_ms".into(), json!(t0.elapsed().as_millis() as u64));
     }
     std::fs::write(o.out.join("impl_report.json"), serde_json::to_string(&report).unwrap() + "\n").unwrap();
-    // leaked (deadlocked) scenario threads must not keep the process alive
-    std::process::exit(0);
+    // leaked (deadlocked / parked) scenario threads must not keep the process alive, and no
+    // destructor or atexit handler may run on a possibly corrupted heap
+    unsafe { _exit(0) }
 }
